@@ -255,7 +255,7 @@ pub fn record<T: Serialize>(v: &T) -> (Vec<u8>, Marks) {
 /// every enum with at most 19 variants (the app's Event has 19 deserializable variants).
 pub const TAG_MAX: u32 = 20;
 
-pub const BIN_ALPHABET: &str = "for a valid encoding e (n bytes): every proper prefix e[..k], k=0..n-1 (k=0 is the empty string); e with each single bit flipped (8n); every 8-byte length field (value v) replaced by {0, v-1, v+1, 2^28, 2^32, 2^40, 2^56, 2^63, 2^64-1} (2^28: fits in memory but is far above the 16 MiB bound; 2^32..2^56: neither overflows capacity nor fits in memory; 2^63 and up: capacity overflow); every 4-byte enum tag replaced by every value of 0..=20 other than its own and by 2^32-1 (covers #variants, #variants+1 and every other in-range tag = well-formed answer of the wrong kind); every 1-byte Option tag replaced by {2, 255}; e followed by 1, 8, 64 bytes of 0x00 and of 0xff";
+pub const BIN_ALPHABET: &str = "for a valid encoding e (n bytes): every proper prefix e[..k], k=0..n-1 (k=0 is the empty string); e with each single bit flipped (8n); every 8-byte length field (value v) replaced by {0, v-1, v+1, 2^28, 2^32, 2^40, 2^56, 2^63, 2^64-1} (2^28: fits in memory but is far above the 16 MiB bound; 2^32..2^56: neither overflows capacity nor fits in memory; 2^63 and up: capacity overflow); every 4-byte enum tag replaced by every value of 0..=20 other than its own and by 2^32-1 (covers #variants, #variants+1 and every other in-range tag = well-formed answer of the wrong kind); every 1-byte Option tag replaced by {2, 255}; e followed by 1, 8, 64 bytes of 0x00 and of 0xff; the last k bytes of e all ones for k = 1..16, and everything after the first four bytes all ones (several numeric fields at their extremes at once)";
 
 pub fn bin_faults(e: &[u8], m: &Marks) -> Vec<Vec<u8>> {
     let mut set: BTreeSet<Vec<u8>> = BTreeSet::new();
@@ -296,6 +296,19 @@ pub fn bin_faults(e: &[u8], m: &Marks) -> Vec<Vec<u8>> {
             set.insert(f);
         }
     }
+    // several numeric fields at their extremes at once: the last k bytes (and everything after the
+    // first tag) all ones
+    for k in 1..=e.len().min(16) {
+        let mut f = e.to_vec();
+        let n = f.len();
+        f[n - k..].fill(0xff);
+        set.insert(f);
+    }
+    if e.len() > 4 {
+        let mut f = e.to_vec();
+        f[4..].fill(0xff);
+        set.insert(f);
+    }
     set.extend(freeform().iter().cloned());
     set.remove(e);
     set.into_iter().collect()
@@ -329,7 +342,7 @@ pub fn freeform() -> &'static [Vec<u8>] {
     })
 }
 
-pub const JSON_ALPHABET: &str = "for a valid JSON text j (n bytes): every proper prefix (incl. empty); every single-character substitution by each of { } [ ] \" , : 0 x \\ ; every value node of the document replaced by each of null, true, 0, -1, 1.5, \"s\", [], {} (type swaps); j followed by \"x\", by eight spaces and 1, by 64 closing brackets";
+pub const JSON_ALPHABET: &str = "for a valid JSON text j (n bytes): every proper prefix (incl. empty); every single-character substitution by each of { } [ ] \" , : 0 x \\ ; every value node of the document replaced by each of null, true, 0, -1, 1.5, \"s\", [], {} (type swaps); j followed by \"x\", by eight spaces and 1, by 64 closing brackets; every number of the document 2^64-1 at once, and each number in turn 2^32-1 while all others are 2^64-1 (documents with at most 16 numbers)";
 
 const SUBST: &[u8] = b"{}[]\",:0x\\";
 
@@ -396,6 +409,37 @@ pub fn json_faults(j: &[u8]) -> Vec<Vec<u8>> {
         swaps(&v, &mut out);
         for s in out {
             set.insert(serde_json::to_vec(&s).unwrap());
+        }
+    }
+    // several numbers at their extremes at once: every number 2^64-1, and each one in turn 2^32-1
+    // while the others are 2^64-1
+    if let Ok(v) = serde_json::from_slice::<serde_json::Value>(j) {
+        fn count(v: &serde_json::Value) -> usize {
+            match v {
+                serde_json::Value::Number(_) => 1,
+                serde_json::Value::Array(a) => a.iter().map(count).sum(),
+                serde_json::Value::Object(o) => o.values().map(count).sum(),
+                _ => 0,
+            }
+        }
+        fn rewrite(v: &mut serde_json::Value, next: &mut usize, small: Option<usize>) {
+            match v {
+                serde_json::Value::Number(_) => {
+                    *v = if small == Some(*next) { serde_json::json!(4294967295u64) } else { serde_json::json!(u64::MAX) };
+                    *next += 1;
+                }
+                serde_json::Value::Array(a) => a.iter_mut().for_each(|x| rewrite(x, next, small)),
+                serde_json::Value::Object(o) => o.values_mut().for_each(|x| rewrite(x, next, small)),
+                _ => {}
+            }
+        }
+        let n = count(&v);
+        if n > 0 && n <= 16 {
+            for small in std::iter::once(None).chain((0..n).map(Some)) {
+                let mut w = v.clone();
+                rewrite(&mut w, &mut 0, small);
+                set.insert(serde_json::to_vec(&w).unwrap());
+            }
         }
     }
     let mut f = j.to_vec();
